@@ -199,6 +199,9 @@ impl Property for C13 {
     fn id(&self) -> &'static str {
         "C13"
     }
+    fn regimes(&self) -> &'static str {
+        crate::gen::REGIMES_FAMILY
+    }
     fn rule(&self) -> String {
         "proptest: successful single right-hand-side fits of the model families (1..3 decays ± offset, Gaussian + decay + offset, decay + offset, and a family whose rate parameter is shared by two basis functions), N in 8..60, relative noise 1e-3..1e-1, weights none / positive, f32/f64, builder-made and hand-written. Oracle: H = W[Phi | D_k c_hat] from the model at (alpha_hat, c_hat) in f64, Cov_o = reduced_chi2 · V S^-2 V^T from the harness' Jacobi SVD of H; |Cov - Cov_o|_ij <= K u_T kappa(H)² sqrt(C_ii C_jj) (gated: K u_T kappa² <= 0.05), symmetry, non-negative diagonal; variance accessors bitwise equal to diag[0..M) and diag[M..M+P); correlation_ij = Cov_ij / sqrt(Cov_ii Cov_jj) (16 ulp), unit diagonal, |entries| <= 1. Non-trivial: gate passed and (M,P) not in {(3,2),(2,3)} (the suite's splits) or a shared parameter".into()
     }
